@@ -184,6 +184,14 @@ class ABNF:
         if self.opcode == ABNF.OPCODE_PING and not self.fin:
             raise WebSocketProtocolException("Invalid ping frame.")
 
+        if self.opcode in (ABNF.OPCODE_CLOSE, ABNF.OPCODE_PING, ABNF.OPCODE_PONG):
+            # RFC 6455 5.5: control frames must not be fragmented
+            # and carry at most 125 bytes of payload
+            if not self.fin:
+                raise WebSocketProtocolException("Fragmented control frame.")
+            if len(self.data) > 125:
+                raise WebSocketProtocolException("Control frame is too long.")
+
         if self.opcode == ABNF.OPCODE_CLOSE:
             l = len(self.data)
             if not l:
